@@ -15,6 +15,7 @@ def run(S):
     claimable_htlc(S, S.decls())
     channel_config(S, S.decls())
     channel_update_info(S, S.decls())
+    channel_written_as_disconnected(S, S.decls())
     K.run_property(S, 'C12')
 
 
@@ -202,3 +203,210 @@ def channel_update_info(S, D):
     S.no_panic(ids[1], E, [], 'neither side panics', [b_])
     S.witness(ids[2], E, [], r_ok)
     S.validate(ids[3], E, b_, n=100 if S.tier == 'quick' else 400)
+
+
+def channel_written_as_disconnected(S, D):
+    """C12.n: FundedChannel::write serialises the channel AS IF the peer had just disconnected (the reader marks it
+    disconnected). Differential: the parts of `write` that depend on uncommitted remote updates - which inbound HTLCs are
+    written, the inbound count, next_counterparty_htlc_id, the pending fee update - are compared with what the real
+    remove_uncommitted_htlcs_and_mark_paused leaves behind on the same state."""
+    for N in ((0, 1, 2) if S.tier == 'quick' else (0, 1, 2, 3)):
+        tag = 'C12.n.n%d' % N
+        ids = [tag + '.inbound_htlcs', tag + '.counter_and_fee', tag + '.witness']
+        if all(S._skip(o) for o in ids):
+            continue
+        ix = S.mir()
+        c = [i for i in range(len(ix.offsets)) if re.search(r'::write\(_1: &(?:\w+::)*FundedChannel<SP>, _2: &mut W\)', ix.offsets[i][0])]
+        if len(c) != 1:
+            raise X.Unsupported('writer of FundedChannel: %d candidates' % len(c))
+        fw = ix.get(c[0])
+        fd = S.fn('remove_uncommitted_htlcs_and_mark_paused')
+        E = S.engine(unwind=N + 2)
+        CC, FC = D.struct_fields('ChannelContext'), D.struct_fields('FundedChannel')
+        IH = D.struct_fields('InboundHTLCOutput')
+        IS = lambda n: D.variant_index('InboundHTLCState', n)
+        FU = lambda n: D.variant_index('FeeUpdateState', n)
+        nstates = len(D.enum_variants('InboundHTLCState'))
+        st = [E.sym('inbound%d.state' % i, 'u8') for i in range(N)]
+        hid = [E.sym('inbound%d.htlc_id' % i, 'u64') for i in range(N)]
+        for s_ in st:
+            E.assume(z3.And(s_.t >= 0, s_.t < nstates))
+
+        mem_any = {}
+
+        def htlc(i):
+            vs = {k: [X.Opaque('state payload %d.%d' % (i, k))] for k in range(nstates)}
+            vs[IS('LocalRemoved')] = [E.sym('inbound%d.removal_reason' % i, 'ln::channel::InboundHTLCRemovalReason', mem_any)]
+            return X.Adt('InboundHTLCOutput', {IH.index('htlc_id'): hid[i], IH.index('state'): X.En('InboundHTLCState', st[i].t, vs, base='in%d.state' % i)}, base='inbound%d' % i)
+        outbound = z3.Bool('channel.is_outbound')
+        has_fee = z3.Bool('pending_update_fee.present')
+        feerate, fstate = E.sym('pending_update_fee.feerate', 'u32'), E.sym('pending_update_fee.state', 'u8')
+        E.assume(z3.And(fstate.t >= 0, fstate.t < 3))
+        nxt = E.sym('next_counterparty_htlc_id', 'u64')
+        n_remote = z3.Sum([z3.If(st[i].t == IS('RemoteAnnounced'), 1, 0) for i in range(N)]) if N else z3.IntVal(0)
+        E.assume(nxt.t >= n_remote)                # every inbound HTLC got its id from this counter
+        # a fee update we proposed is in state Outbound, one the peer proposed never is (debug-asserted by the library)
+        E.assume(z3.Implies(has_fee, (fstate.t == FU('Outbound')) == outbound))
+
+        def channel(mem):
+            ctx = X.Adt('ChannelContext', {CC.index('pending_inbound_htlcs'): X.Seq([htlc(i) for i in range(N)], N, 'InboundHTLCOutput'),
+                                           CC.index('pending_outbound_htlcs'): X.Seq([], 0, 'OutboundHTLCOutput'),
+                                           CC.index('next_counterparty_htlc_id'): nxt,
+                                           CC.index('pending_update_fee'): X.En('Option', z3.If(has_fee, 1, 0), {1: [X.Tup([feerate, X.En('FeeUpdateState', fstate.t, {})])]})}, base='ctx')
+            cell = E.new_cell()
+            mem[cell] = X.Adt('FundedChannel', {FC.index('context'): ctx}, base='chan')
+            return cell
+        # ---- the reference: what a disconnection leaves behind
+        mem_d = {}
+        cd = channel(mem_d)
+        for rx, h in [
+            (r'ChannelContext::<.*>::can_resume_on_reconnect$', lambda *a: X.B(True)),
+            (r'ChannelState::is_peer_disconnected$', lambda *a: X.B(False)),
+            (r'ChannelState::set_peer_disconnected$', lambda *a: X.UNIT),
+            (r'FundingScope::is_outbound$', lambda *a: X.B(outbound)),
+            (r'AnnouncementSigsState as PartialEq>::eq$', lambda *a: X.B(z3.Bool('ann_sigs!%d' % next(E.nfresh)))),
+            (r'FeeUpdateState as PartialEq>::eq$', lambda E_, m, func, argv, guard, mem_, dty, caller: X.B(X.zint(_deref(E_, argv[0], mem_).d) == X.zint(_deref(E_, argv[1], mem_).d))),
+            (r'ChannelContext::<.*>::channel_id$', lambda *a: X.Opaque('channel id')),
+            (r'Arguments::<.*>::from_str$|Arguments::<.*>::new', lambda *a: X.Opaque('fmt args')),
+            (r'Record::<.*>::new', lambda *a: X.Opaque('log record')),
+            (r'Logger>::log$', lambda *a: X.UNIT),
+            (r'Argument::<.*>::new_', lambda *a: X.Opaque('fmt arg')),
+            (r'^format$|^must_use::<', lambda *a: X.Opaque('string')),
+            (r'^std::mem::drop::<|drop_in_place', lambda *a: X.UNIT),
+        ]:
+            E.models.insert(0, (re.compile(rx), h))
+        n_pan0 = len(E.panics)
+        rv = S.call(E, fd, [X.Ref(cd), X.Opaque('logger')], mem_d)
+        ctx_d = E.read_path(mem_d[cd], (('f', FC.index('context'), 'ChannelContext'),), mem_d, True, 'spec')
+        lst_d = E.read_path(ctx_d, (('f', CC.index('pending_inbound_htlcs'), 'Vec'),), mem_d, True, 'spec')
+        nxt_d = E.read_path(ctx_d, (('f', CC.index('next_counterparty_htlc_id'), 'u64'),), mem_d, True, 'spec')
+        fee_d = E.read_path(ctx_d, (('f', CC.index('pending_update_fee'), 'Option'),), mem_d, True, 'spec')
+        if not isinstance(lst_d, X.Seq):
+            raise X.Unsupported('inbound HTLCs after disconnection: %r' % (lst_d,))
+        els = list(zip(lst_d.elems, lst_d.pres if not lst_d.prefix else [X.simp(X.zint(lst_d.n) > i) for i in range(len(lst_d.elems))]))
+        kept = [X.zbool(els[i][1]) if i < len(els) else z3.BoolVal(False) for i in range(N)]
+        fee_d_some = X.zint(fee_d.d) == 1
+        fee_d_rate = E.read_path(fee_d, (('v', 'Some'), ('f', 0, 'tuple'), ('f', 0, 'u32')), mem_d, True, 'spec') if 1 in fee_d.vs else None
+        # ---- the writer, region 1: the inbound HTLCs
+        mem_w = {}
+        cw = channel(mem_w)
+        writes = []
+
+        def h_write(kind):
+            def h(E_, m, func, argv, guard, mem_, dty, caller):
+                writes.append((kind, X.zbool(guard), _deref(E_, argv[0], mem_)))
+                return X.En('Result', 0, {0: [X.UNIT]})
+            return h
+        for rx, h in [                     # inserted at the front one by one: the LAST entry is tried first
+            (r'Vec::<&.*>::push$', lambda *a: X.UNIT),
+            (r'^<.* as (?:util::ser::)?Writeable>::write::<', lambda *a: X.En('Result', 0, {0: [X.UNIT]})),
+            (r'^<Option<u32> as (?:util::ser::)?Writeable>::write::<', h_write('opt_u32')),
+            (r'^<u64 as (?:util::ser::)?Writeable>::write::<', h_write('u64')),
+        ]:
+            E.models.insert(0, (re.compile(rx), h))
+        dbg = {n: l for n, l in fw.debug_all} if hasattr(fw, 'debug_all') else {}
+        start = [b for b, (bd, t) in fw.blocks.items() if any(st_[0] == 'assign' and st_[2] == ('use', ('const', '0_u64')) for st_ in bd) and t[0] == 'call' and 'InboundHTLCOutput' in t[2]]
+        stop1 = _calls(fw, r'Vec::<Option<&.*PaymentPreimage>>::new$')
+        if len(start) != 1 or len(stop1) != 1:
+            raise X.Unsupported('FundedChannel::write: %d starts of the inbound part, %d ends' % (len(start), len(stop1)))
+        wcell = E.new_cell()
+        mem_w[wcell] = X.Opaque('writer')
+        run1 = X.FnRun(E, fw, [X.Ref(cw), X.Ref(wcell)], True, mem_w)
+        E.depth += 1
+        run1.run(start_bb=start[0], init={}, stop_bbs=(stop1[0],))
+        E.depth -= 1
+        w1 = list(writes)
+        del writes[:]
+        reached1 = z3.Or(*[X.zbool(g) for g, m_ in run1.stop_states.get(stop1[0], [])]) if run1.stop_states.get(stop1[0]) else z3.BoolVal(False)
+        if not w1:
+            raise X.Unsupported('FundedChannel::write: no u64 written in the inbound part')
+        count_w = w1[0][2]
+        written = []
+        for i in range(N):
+            hits = [g for k, g, v in w1[1:] if k == 'u64' and z3.is_expr(X.zint(v.t)) and X.zint(v.t).eq(hid[i].t)]
+            written.append(z3.Or(*hits) if hits else z3.BoolVal(False))
+        n_kept = z3.Sum([z3.If(k_, 1, 0) for k_ in kept]) if N else z3.IntVal(0)
+        S.prove(ids[0], E, [], z3.And(reached1, X.zint(count_w.t) == n_kept, *[written[i] == kept[i] for i in range(N)]),
+                'the inbound HTLCs FundedChannel::write serialises, and the count it announces for them, are exactly the ones a peer disconnection keeps (an HTLC the peer announced but never committed is dropped: the peer re-sends it after channel_reestablish)',
+                [reload_binding(z3.BoolVal(False))], given_no_panic=True,
+                bounds='%d inbound HTLCs in arbitrary states; region of FundedChannel::write over the inbound HTLCs vs. the real remove_uncommitted_htlcs_and_mark_paused on the same state; field codecs stubbed' % N)
+        # ---- the writer, region 2: pending fee update and the inbound id counter (with the dropped count the first region computed)
+        dropped = E.sym('write.dropped_inbound_htlcs', 'u64')
+        starts2 = [b for b in _calls(fw, r'FundingScope::is_outbound$') if any('FeeUpdateState' in str(fw.blocks[x]) for x in _next_blocks(fw, b, 3))]
+        stop2 = [b for b, (bd, t) in fw.blocks.items() if t[0] == 'call' and re.search(r'^<u32 as (?:util::ser::)?Writeable>::write::<', t[2]) and any(st_[0] == 'assign' and st_[2][0] == 'ref' and _is_field(st_[2][2], CC.index('update_time_counter')) for st_ in bd)]
+        loc = [l for n, l in (fw.debug_all if hasattr(fw, 'debug_all') else []) if n == 'dropped_inbound_htlcs']
+        if len(starts2) != 1 or not stop2 or not loc:
+            raise X.Unsupported('FundedChannel::write: %d fee parts, %d ends, dropped counter %r' % (len(starts2), len(stop2), loc))
+        m_ = re.search(r'_(\d+)', str(loc[0]))
+        mem_w2 = {}
+        cw2 = channel(mem_w2)
+        wcell2 = E.new_cell()
+        mem_w2[wcell2] = X.Opaque('writer')
+        run2 = X.FnRun(E, fw, [X.Ref(cw2), X.Ref(wcell2)], True, mem_w2)
+        E.depth += 1
+        run2.run(start_bb=starts2[0], init={int(m_.group(1)): dropped}, stop_bbs=tuple(stop2))
+        E.depth -= 1
+        w2 = list(writes)
+        fee_w = [(g, v) for k, g, v in w2 if k == 'opt_u32']
+        u64_w = [(g, v) for k, g, v in w2 if k == 'u64']
+        if len(fee_w) < 2 or len(u64_w) < 2:
+            raise X.Unsupported('FundedChannel::write: fee part wrote %d Option<u32>, %d u64' % (len(fee_w), len(u64_w)))
+        # the LAST Option<u32> is holding_cell_update_fee; the ones before it are the arms of the pending fee update
+        arms = fee_w[:-1]
+        fee_ok = []
+        for g, v in arms:
+            some = X.zint(v.d) == 1
+            rate = E.read_path(v, (('v', 'Some'), ('f', 0, 'u32')), mem_w2, True, 'spec') if isinstance(v, X.En) and 1 in v.vs else None
+            fee_ok.append(z3.Implies(g, z3.And(some == fee_d_some, z3.Implies(some, rate.t == fee_d_rate.t) if rate is not None and fee_d_rate is not None else z3.Not(some))))
+        one_arm = z3.Sum([z3.If(g, 1, 0) for g, v in arms]) == 1
+        # u64 writes of the region, in order: next_holder_htlc_id, then next_counterparty_htlc_id - dropped
+        cnt_g, cnt_v = u64_w[1]
+        S.prove(ids[1], E, [dropped.t == N - n_kept], z3.And(one_arm, *fee_ok, cnt_g, X.zint(cnt_v.t) == X.zint(nxt_d.t)),
+                'FundedChannel::write stores the pending fee update and the counter of inbound HTLC ids as a peer disconnection leaves them: a fee update the peer announced but never committed is not stored, one it committed is, and the id counter is wound back by the HTLCs dropped - so the peer\'s retransmission after reconnecting is accepted and nothing it committed is forgotten',
+                [reload_binding(z3.BoolVal(False))], given_no_panic=True,
+                bounds='region of FundedChannel::write from the pending fee update to update_time_counter vs. the real remove_uncommitted_htlcs_and_mark_paused; %d inbound HTLCs' % N)
+        S.witness(ids[2], E, [has_fee, z3.Not(outbound), fstate.t == FU('RemoteAnnounced')], z3.Not(fee_d_some))
+    S.validate('C12.n.validate', E, reload_binding(z3.BoolVal(True)), n=1, extra_vectors=[(1,)])
+
+
+def reload_binding(claim):
+    """replay (oracle_tu channel_reload_battery): a node is serialised while a peer's update_add_htlc / update_fee is
+    announced but not yet committed, and after it is committed; it is reloaded and reconnected, and the channel must go on:
+    the peer's retransmission is accepted, payments complete, no channel is closed"""
+    c = claim if z3.is_expr(claim) else X.zbool(claim)
+    return Binding('channel_reload_battery', [z3.IntVal(1)], [z3.If(c, 0, 1)], parse=lambda t: [0 if t[0] == '0' else 1], line_fn=lambda v: '1',
+                   which='oracle_tu', via_solver=True, domain=[(1, 1)], panic=False)
+
+
+def _calls(f, rx):
+    r = re.compile(rx)
+    return [b for b, (body, t) in f.blocks.items() if t[0] == 'call' and r.search(t[2])]
+
+
+def _next_blocks(f, b, depth):
+    out, frontier = set(), {b}
+    for _ in range(depth):
+        nxt = set()
+        for x in frontier:
+            t = f.blocks[x][1]
+            if t[0] == 'call' and t[4] is not None:
+                nxt.add(t[4])
+            elif t[0] == 'goto':
+                nxt.add(t[1])
+            elif t[0] == 'switch':
+                nxt.update(t[2].values())
+                if t[3] is not None:
+                    nxt.add(t[3])
+        out |= nxt
+        frontier = nxt
+    return out
+
+
+def _is_field(place, idx):
+    return isinstance(place, tuple) and place[0] == 'field' and place[2] == idx
+
+
+def _deref(E, v, mem_):
+    while isinstance(v, X.Ref):
+        v = E.read_path(mem_[v.cell], v.path, mem_, True, 'deref')
+    return v
